@@ -1,6 +1,7 @@
 package rules
 
 import (
+	"go/types"
 	"go/token"
 	"strings"
 
@@ -189,6 +190,69 @@ func c10(c *Ctx) {
 	}
 	if npoll == 0 {
 		c.R.Undecided("R-poll", "none", PkgCtrl, "-", "no function updates the RPM average with UpdateSimpleMovingAvg (anchor unresolved)")
+	}
+	// the monitor lives as long as regulation: the goroutine that calls the poll in a loop returns only from the
+	// `<-ctx.Done()` case of its select. Any other exit ends the polling while the control loop keeps testing an
+	// average that is never refreshed again (a later stall is not noticed within any bound).
+	nlife := 0
+	for _, fn := range c.P.Funcs {
+		if load_FuncPkgPath(fn) != PkgCtrl || len(fn.Blocks) == 0 {
+			continue
+		}
+		// a looping caller of a poll function
+		var pollCall ssa.Instruction
+		Calls(fn, func(cc ssa.CallInstruction) {
+			if _, isGo := cc.(*ssa.Go); isGo {
+				return
+			}
+			st := ir.Callee(cc).Static
+			if st == nil || st == fn || load_FuncPkgPath(st) != PkgCtrl {
+				return
+			}
+			isPoll := false
+			Calls(st, func(c2 ssa.CallInstruction) {
+				if isFanInvoke(c2, "SetRpmAvg") && termHasCall(r.tb.Of(c2.Common().Args[0], nil), "util.UpdateSimpleMovingAvg") {
+					isPoll = true
+				}
+			})
+			if isPoll && loopHead(cc.Block()) != nil {
+				pollCall = cc
+			}
+		})
+		if pollCall == nil {
+			continue
+		}
+		nlife++
+		key := c.FK(fn) + "|lifetime"
+		h := loopHead(pollCall.Block())
+		bad := ""
+		for _, rv := range returnsFrom([]ir.Point{{Block: h, Idx: 0}}, ir.Search{}) {
+			facts := factsAt(rv.ret.Block(), rv.via)
+			okDone := ir.HasFact(facts, token.EQL, func(x, y ssa.Value) bool {
+				ex, isEx := x.(*ssa.Extract)
+				k, isConst := ir.ConstInt(y)
+				if !isEx || !isConst || ex.Index != 0 {
+					return false
+				}
+				sel, isSel := ex.Tuple.(*ssa.Select)
+				if !isSel || int(k) >= len(sel.States) || k < 0 {
+					return false
+				}
+				call, isCall := ir.Resolve(sel.States[k].Chan).(*ssa.Call)
+				return isCall && sel.States[k].Dir == types.RecvOnly && strings.HasSuffix(ir.CallName(call), "context.Context.Done")
+			})
+			if !okDone && bad == "" {
+				bad = c.P.Pos(rv.ret.Pos())
+			}
+		}
+		if bad != "" {
+			c.R.Bad("R-poll", key, c.FK(fn), bad, "the goroutine that polls the RPM input can return (at "+bad+") on something other than the cancellation of the context: polling stops while the control loop goes on, the RPM average is frozen at its last value and a later stall is never noticed")
+		} else {
+			c.R.Ok("R-poll", key, c.FK(fn), c.P.Pos(pollCall.Pos()), "the polling goroutine returns only from the <-ctx.Done() case of its select")
+		}
+	}
+	if nlife == 0 {
+		c.R.Undecided("R-poll", "lifetime", PkgCtrl, "-", "no goroutine calls the RPM poll in a loop (anchor unresolved)")
 	}
 	c.R.Require("R-poll", 1)
 
